@@ -355,6 +355,84 @@ theorem C08_api_closed_forever (s : Api) (h : s.closed = true) (cs : List Call) 
     rw [this]
     simpa using ih
 
+/-- the answer every call gets on a closed network -/
+def closedAnswer : Call → Res
+  | .peers => .num 0
+  | .isClosed => .flag true
+  | .upgrade => .flag false
+  | _ => .err
+
+theorem run_append (s : Api) (a b : List Call) :
+    s.run (a ++ b) = ((((s.run a).1).run b).1, (s.run a).2 ++ (((s.run a).1).run b).2) := by
+  induction a generalizing s with
+  | nil => simp [Api.run]
+  | cons c cs ih => simp only [List.cons_append, Api.run]; rw [ih]
+
+theorem run_closed (cs : List Call) :
+    (({ closed := true, peers := 0 } : Api).run cs) = ({ closed := true, peers := 0 }, cs.map closedAnswer) := by
+  induction cs with
+  | nil => rfl
+  | cons c cs ih =>
+    simp only [Api.run, List.map_cons]
+    have hc : ({ closed := true, peers := 0 } : Api).call c = ({ closed := true, peers := 0 }, closedAnswer c) := by
+      cases c <;> rfl
+    rw [hc]; simp only; rw [ih]
+
+theorem run_open (s : Api) (pre : List Call) (hp : Call.shutdown ∉ pre) :
+    (s.run pre).1 = s := by
+  induction pre with
+  | nil => rfl
+  | cons c cs ih =>
+    have hc : c ≠ .shutdown := fun e => hp (by simp [e])
+    have hcs : Call.shutdown ∉ cs := fun e => hp (by simp [e])
+    simp only [Api.run]
+    have : (s.call c).1 = s := by cases c <;> first | rfl | exact absurd rfl hc
+    rw [this]; exact ih hcs
+
+/-- **Every history of API calls, any length**: from a running network, whatever was called before
+the first `shutdown`, that shutdown succeeds, the network is then closed WITHOUT peers, and every later
+call - in any number and order, further shutdowns included - gets the closed answer (error, closed,
+no peers, no upgrade). -/
+theorem C08_api_history (s : Api) (h : s.closed = false) (pre post : List Call) (hp : Call.shutdown ∉ pre) :
+    (s.run (pre ++ .shutdown :: post)).1 = { closed := true, peers := 0 } ∧
+    (s.run (pre ++ .shutdown :: post)).2 = (s.run pre).2 ++ Res.ok :: post.map closedAnswer := by
+  rw [run_append, run_open s pre hp]
+  simp only [Api.run, Api.call, h]
+  simp [run_closed]
+
+/-- at most one `shutdown` of a history is answered `ok` (the first), however many are issued and
+from whichever state -/
+theorem C08_api_one_shutdown_succeeds (s : Api) (cs : List Call) :
+    ((cs.zip (s.run cs).2).filter (fun p => p.1 == .shutdown && p.2 == .ok)).length ≤ 1 ∧
+    (s.closed = true → ((cs.zip (s.run cs).2).filter (fun p => p.1 == .shutdown && p.2 == .ok)).length = 0) := by
+  induction cs generalizing s with
+  | nil => simp [Api.run]
+  | cons c cs ih =>
+    simp only [Api.run, List.zip_cons_cons, List.filter_cons]
+    cases hcl : s.closed with
+    | true =>
+      have h1 : (s.call c).1 = s := (C08_api_after_shutdown s hcl c).1
+      have h2 : ((c == Call.shutdown) && ((s.call c).2 == Res.ok)) = false := by
+        cases c <;> simp [Api.call, hcl]
+      rw [h1, h2]
+      have := (ih s).2 hcl
+      simp [this]
+    | false =>
+      cases c with
+      | shutdown =>
+        have hc : s.call .shutdown = ({ closed := true, peers := 0 }, .ok) := by simp [Api.call, hcl]
+        rw [hc]
+        have := (ih { closed := true, peers := 0 }).2 rfl
+        simp [this]
+      | _ =>
+        all_goals
+          simp only [Api.call, hcl]
+          have := (ih s).1
+          simp at this ⊢
+          try exact this
+
+example : (({ peers := 3 } : Api).run [.peers, .rpc, .shutdown, .rpc, .shutdown, .peers, .upgrade]).2 =
+    [.num 3, .ok, .ok, .err, .err, .num 0, .flag false] := by decide
 end Anemo.Life
 
 namespace Anemo
